@@ -6,6 +6,8 @@ set -u
 P=$1; shift
 D=$(mktemp -d /tmp/kcmut.XXXXXX)
 rsync -a --exclude .git /repo/ "$D/"
+# optional: a fix not yet committed in /repo, applied to every scratch copy first (KC_PREFIX_PATCH=<diff>)
+if [ -n "${KC_PREFIX_PATCH:-}" ]; then (cd "$D" && patch -s -p1 -N < "$KC_PREFIX_PATCH" >/dev/null 2>&1; find . -name "*.rej" -delete; find . -name "*.orig" -delete; true); fi
 export GOFLAGS=-mod=mod GOPROXY=off GOSUMDB=off GOTOOLCHAIN=local
 case "$P" in
   *.sh) (cd "$D" && bash "$P") ;;
